@@ -503,6 +503,10 @@ def run(ctx):
             msgs.append(dict(kind="rx", ver=1, fn=77, tn=i, rssi=-90, toa=0, nope=True, mod=i, tset=ts, tsc=(i + ts) % 8, ci=-5, burst=None))
     for _ in range(700 if quick else 12000):
         msgs.append(TU.rand_rx(rng) if rng.chance(2, 3) else TU.rand_tx(rng))
+    # the datagrams handed to the definitions are what a SENDER holds: several messages generated through one long-lived object
+    # per direction and kept - each datagram must stay what it was when generated (generator shared with C01)
+    _pairs = [(m, legacy) for m in msgs[:n_spec_sweep + 40] for legacy in (False, True)]
+    TU.gen_reuse_check(ctx, _pairs, [TU.do_gen(m, legacy) for m, legacy in _pairs], "c17-gen-history")
     for mi, m in enumerate(msgs):
         for legacy in (False, True):
             try:
